@@ -21,6 +21,8 @@ from openpyxl.utils import (
     range_boundaries as openpyxl_range_boundaries,
 )
 
+from pycel import _verif  # noqa: I100, I202
+
 
 ERROR_CODES = frozenset(Tokenizer.ERROR_CODES)
 DIV0 = '#DIV/0!'
@@ -1293,6 +1295,8 @@ class _IterativeEvalTracker:
         self.ns.iteration_number = 0
         self.ns.iterations = iterations
         self.ns.tolerance = tolerance
+        if _verif.ENABLED:
+            _verif.emit('iter_begin', iterations=iterations, tolerance=tolerance)
         return self
 
     @property
@@ -1320,6 +1324,8 @@ class _IterativeEvalTracker:
         self.ns.iteration_number += 1
         self.ns.todo.clear()
         self.ns.computed.clear()
+        if _verif.ENABLED:
+            _verif.emit('iter_pass', number=self.ns.iteration_number)
 
 
 iterative_eval_tracker = _IterativeEvalTracker()
